@@ -121,8 +121,8 @@ Section StmtInd.
     (HAug : forall l x o e, Ps (SAug l x o e))
     (HPrint : forall l e, Ps (SPrint l e))
     (HIf : forall l c a b, Pb a -> Pb b -> Ps (SIf l c a b))
-    (HWhile : forall l c b, Pb b -> Ps (SWhile l c b))
-    (HFor : forall l x e b, Pb b -> Ps (SFor l x e b))
+    (HWhile : forall l c b e, Pb b -> Pb e -> Ps (SWhile l c b e))
+    (HFor : forall l x e b els, Pb b -> Pb els -> Ps (SFor l x e b els))
     (HReturn : forall l e, Ps (SReturn l e))
     (HPass : forall l, Ps (SPass l))
     (HBreak : forall l, Ps (SBreak l))
@@ -142,8 +142,8 @@ Section StmtInd.
     | SAug l x o e => HAug l x o e
     | SPrint l e => HPrint l e
     | SIf l c a b => HIf l c a b (blk a) (blk b)
-    | SWhile l c b => HWhile l c b (blk b)
-    | SFor l x e b => HFor l x e b (blk b)
+    | SWhile l c b e => HWhile l c b e (blk b) (blk e)
+    | SFor l x e b els => HFor l x e b els (blk b) (blk els)
     | SReturn l e => HReturn l e
     | SPass l => HPass l
     | SBreak l => HBreak l
@@ -163,8 +163,8 @@ Lemma stmt_blk_ind : forall (Ps : stmt -> Prop) (Pb : list stmt -> Prop),
   (forall l x o e, Ps (SAug l x o e)) ->
   (forall l e, Ps (SPrint l e)) ->
   (forall l c a b, Pb a -> Pb b -> Ps (SIf l c a b)) ->
-  (forall l c b, Pb b -> Ps (SWhile l c b)) ->
-  (forall l x e b, Pb b -> Ps (SFor l x e b)) ->
+  (forall l c b e, Pb b -> Pb e -> Ps (SWhile l c b e)) ->
+  (forall l x e b els, Pb b -> Pb els -> Ps (SFor l x e b els)) ->
   (forall l e, Ps (SReturn l e)) ->
   (forall l, Ps (SPass l)) ->
   (forall l, Ps (SBreak l)) ->
@@ -257,8 +257,8 @@ Proof.
 Qed.
 
 Definition loop_frame (loop : loopk -> store -> list Z -> res) : Prop :=
-  (forall c b st o, frame_on (defs b) st (snd (fst (loop (KWhile c b) st o))))
-  /\ (forall x i hi b st o, frame_on (x :: defs b) st (snd (fst (loop (KFor x i hi b) st o)))).
+  (forall c b e st o, frame_on (defs b ++ defs e) st (snd (fst (loop (KWhile c b e) st o))))
+  /\ (forall x i hi b e st o, frame_on (x :: defs b ++ defs e) st (snd (fst (loop (KFor x i hi b e) st o)))).
 
 Lemma frame_weaken : forall D D' a b, frame_on D a b -> (forall x, In x D -> In x D') -> frame_on D' a b.
 Proof.
@@ -291,8 +291,8 @@ Proof.
     simpl defs_s. destruct (Z.eqb v 0).
     + eapply frame_weaken; [apply Hb|]. intros; apply in_or_app; right; assumption.
     + eapply frame_weaken; [apply Ha|]. intros; apply in_or_app; left; assumption.
-  - intros l c b Hb st o. simpl. apply HW.
-  - intros l x e b Hb st o. simpl. destruct (eval st e); [apply HF | apply frame_refl].
+  - intros l c b e Hb He st o. simpl. apply HW.
+  - intros l x e b els Hb He st o. simpl. destruct (eval st e); [apply HF | apply frame_refl].
   - intros l e st o. simpl. destruct (eval st e); apply frame_refl.
   - intros; apply frame_refl.
   - intros; apply frame_refl.
@@ -319,15 +319,19 @@ Proof.
   induction n as [|m IH].
   - split; intros; simpl; apply frame_refl.
   - destruct (exec_frame _ IH) as [_ Hb]. destruct IH as [IW IF]. split.
-    + intros c b st o. simpl. destruct (eval st c) as [v|]; [|apply frame_refl].
-      destruct (Z.eqb v 0); [apply frame_refl|].
-      specialize (Hb b st o). destruct (exec_b (exec_k m) b st o) as [[sg st'] o']. simpl in Hb.
-      destruct sg; try exact Hb;
-        (eapply frame_trans; [exact Hb | apply IW | |]; auto).
-    + intros x i hi b st o. simpl. destruct (Z.leb hi i); [apply frame_refl|].
-      specialize (Hb b (upd st x i) o). destruct (exec_b (exec_k m) b (upd st x i) o) as [[sg st'] o']. simpl in Hb.
-      assert (W : frame_on (x :: defs b) st st').
-      { eapply frame_trans; [apply frame_upd | exact Hb | |]; intros y Hy; simpl in *; tauto. }
+    + intros c b e st o. simpl. destruct (eval st c) as [v|]; [|apply frame_refl].
+      destruct (Z.eqb v 0).
+      { eapply frame_weaken; [apply Hb|]. intros; apply in_or_app; auto. }
+      pose proof (Hb b st o) as Hb'. destruct (exec_b (exec_k m) b st o) as [[sg st'] o']. simpl in Hb'.
+      assert (W : frame_on (defs b ++ defs e) st st').
+      { eapply frame_weaken; [exact Hb'|]. intros; apply in_or_app; auto. }
+      destruct sg; try exact W;
+        (eapply frame_trans; [exact W | apply IW | |]; auto).
+    + intros x i hi b e st o. simpl. destruct (Z.leb hi i).
+      { eapply frame_weaken; [apply Hb|]. intros; right; apply in_or_app; auto. }
+      pose proof (Hb b (upd st x i) o) as Hb'. destruct (exec_b (exec_k m) b (upd st x i) o) as [[sg st'] o']. simpl in Hb'.
+      assert (W : frame_on (x :: defs b ++ defs e) st st').
+      { eapply frame_trans; [apply frame_upd | exact Hb' | |]; intros y Hy; simpl in *; [tauto | right; apply in_or_app; auto]. }
       destruct sg; try exact W;
         (eapply frame_trans; [exact W | apply IF | |]; auto).
 Qed.
@@ -359,8 +363,8 @@ Proof.
     destruct (eval st c) as [v|]; [|discriminate]. destruct (Z.eqb v 0).
     + eapply Hb; eauto.
     + eapply Ha; eauto.
-  - intros l c b Hb st o st' o' H y Hy. simpl in Hy. contradiction.
-  - intros l x e b Hb st o st' o' H y Hy. simpl in Hy. contradiction.
+  - intros l c b e Hb He st o st' o' H y Hy. simpl in Hy. contradiction.
+  - intros l x e b els Hb He st o st' o' H y Hy. simpl in Hy. contradiction.
   - intros l e st o st' o' H y Hy. simpl in Hy. contradiction.
   - intros l st o st' o' H y Hy. simpl in Hy. contradiction.
   - intros l st o st' o' H y Hy. simpl in Hy. contradiction.
@@ -383,18 +387,3 @@ Proof.
     + eapply Hr; eauto.
 Qed.
 
-(* ------------------------------------------------------------------ signals of a region *)
-Definition loop_sig (loop : loopk -> store -> list Z -> res) : Prop :=
-  forall k st o, fst (fst (loop k st o)) <> Brk /\ fst (fst (loop k st o)) <> Cont.
-
-Lemma exec_k_sig : forall n, loop_sig (exec_k n).
-Proof.
-  induction n as [|m IH]; intros k st o.
-  - simpl. split; discriminate.
-  - simpl. destruct k as [c b|x i hi b].
-    + destruct (eval st c) as [v|]; [|simpl; split; discriminate].
-      destruct (Z.eqb v 0); [simpl; split; discriminate|].
-      destruct (exec_b (exec_k m) b st o) as [[sg st'] o']. destruct sg; simpl; try (split; discriminate); apply IH.
-    + destruct (Z.leb hi i); [simpl; split; discriminate|].
-      destruct (exec_b (exec_k m) b (upd st x i) o) as [[sg st'] o']. destruct sg; simpl; try (split; discriminate); apply IH.
-Qed.
